@@ -295,6 +295,21 @@ def run(ctx):
         for cd in F.dominating_conds(sd, c.bb):
             if cd.kind == 'bool' and not cd.truth and cd.expr.mentions_call(r'CancellationToken::is_cancelled$') is not None and 'shutdown' in cd.expr.show():
                 okg = True
+    # ... and nothing can park the request between that check and the send: an await point (a semaphore, a lock, a sleep)
+    # in between lets stop() run to completion while the request waits, and the request is sent afterwards
+    parked = []
+    for c in sends:
+        for n_, e_ in sd.edge_nodes().items():
+            cd = F.edge_cond(sd, e_)
+            if cd.kind == 'bool' and not cd.truth and cd.expr.mentions_call(r'CancellationToken::is_cancelled$') is not None and sd.dominates(n_, c.bb):
+                reach = sd.reachable_from([n_], {c.bb})
+                for bi_, t_ in sd.terms():
+                    if t_['k'] == 'yield' and bi_ in reach and c.bb in sd.reachable_from([bi_]):
+                        parked.append((bi_, t_.get('ln')))
+    ctx.ob('NO-SEND-AFTER-STOP', 'send_dht_request:no-wait-between-check-and-send', okg and not parked, sd.where(parked[0][1] if parked else None),
+           'no await point lies between the shutdown check and the transport send' if not parked else
+           'an await point (line %s) lies between the shutdown check and the transport send: a request that passed the check can wait there while stop() '
+           'completes and is sent afterwards' % parked[0][1], entry=MGR + '::send_dht_request')
     ctx.ob('NO-SEND-AFTER-STOP', 'send_dht_request:gated', okg and bool(sends), sd.where(),
            'the transport send in send_dht_request is dominated by !shutdown.is_cancelled()' if okg else
            'send_dht_request never looks at the shutdown token: put / get / lookup loops that are in flight keep issuing requests after stop() has returned')
